@@ -432,7 +432,11 @@ class LoaderBase(ABC):
             local_shifts[i] = loc_shift * self.scale
 
         rotator = Rotation.from_quat(local_rot)
-        mole_aligned = self.molecules.linear_transform(local_shifts, rotator)
+        # NOTE: shifts are given in the coordinates of the input molecules (the axes
+        # of the sub-volume), so they must not be rotated by the local rotation.
+        mole_aligned = self.molecules.translate_internal(
+            local_shifts
+        ).rotate_by_rotvec_internal(rotator.as_rotvec())
 
         mole_aligned.features = self.molecules.features.with_columns(
             _misc.get_feature_list(scores, local_shifts, rotator.as_rotvec()),
@@ -569,7 +573,11 @@ class LoaderBase(ABC):
             local_shifts[i] = loc_shift * self.scale
 
         rotator = Rotation.from_quat(local_rot)
-        mole_aligned = self.molecules.linear_transform(local_shifts, rotator)
+        # NOTE: shifts are given in the coordinates of the input molecules (the axes
+        # of the sub-volume), so they must not be rotated by the local rotation.
+        mole_aligned = self.molecules.translate_internal(
+            local_shifts
+        ).rotate_by_rotvec_internal(rotator.as_rotvec())
 
         if remainder > 1:
             labels %= remainder  # type: ignore
